@@ -219,6 +219,52 @@ Proof.
   split; [vm_compute; reflexivity|]. vm_compute. discriminate.
 Qed.
 
+(* ======================================================================================
+   Extension (session 4).  Proofs/FPSNetP.v, Proofs/FPSNetInstP.v: the selections form an
+   r-net, r = the distance at which the last selection was made. *)
+From Verif Require Import FPSNetP FPSNetInstP.
+
+(* covering: just before its last selection i the loop had every candidate within
+   r = tabmin i (s ++ new) of the selected set; ANY distance, ANY farthest sequence *)
+Theorem C02_net_covering :
+  forall cs dist s new i, farthest_seq cs dist s (new ++ [i]) ->
+    forall j, (j < length cs)%nat ->
+      ext_le (tabmin dist j (s ++ new)) (tabmin dist i (s ++ new)).
+Proof. exact farthest_net_covering. Qed.
+Print Assumptions C02_net_covering.
+
+(* packing: every selection of the loop was made at distance >= r from all earlier ones *)
+Theorem C02_net_packing :
+  forall cs dist s new i, farthest_seq cs dist s (new ++ [i]) ->
+    Forall (fun d => ext_le (tabmin dist i (s ++ new)) d) (dists dist s (new ++ [i])).
+Proof. exact farthest_net_packing. Qed.
+Print Assumptions C02_net_packing.
+
+(* ... as the fitted object reports it: get_distance() is nowhere above
+   get_select_distance()[-1], and no selection made by the loop has a smaller select
+   distance than the last one; every input, initialisation, threshold and iteration count *)
+Theorem C02_net_reported :
+  forall cs d ycand, dims d cs -> forall inits t niter g' st,
+    NoDup inits -> in_range (length cs) inits ->
+    fps_fit cs ycand inits t niter = (g', st) -> inits <> [] ->
+    (length inits < length (sel g'))%nat ->
+    let r := nth (length (sel g') - 1)%nat (select_distance g') None in
+    Forall (fun h => ext_le h r) (haus (sst g')) /\
+    forall k, (length inits <= k < length (sel g'))%nat ->
+      ext_le r (nth k (select_distance g') None).
+Proof. exact fps_net. Qed.
+Print Assumptions C02_net_reported.
+
+(* non-vacuity: the run of C02_nonvacuous ([4] -> [4;3;1;2], distances [inf;8;5;5]) meets
+   the hypotheses; r = 5 and the table it reports is [2;0;0;0;0] *)
+Example C02_net_nonvacuous :
+  let cs := [[0;0];[3;0];[0;3];[3;3];[1;1]] in
+  let g := fst (fps_fit cs None [4%nat] NoThr 4) in
+  (length [4%nat] < length (sel g))%nat /\
+  nth (length (sel g) - 1)%nat (select_distance g) None = Some 5 /\
+  haus (sst g) = [Some 2; Some 0; Some 0; Some 0; Some 0].
+Proof. cbv zeta. split; [vm_compute; lia|]. split; vm_compute; reflexivity. Qed.
+
 (* ---- layer A: the distance induced by pcovr_covariance / pcovr_kernel ----------------------
    [idist M i j] = M_ii + M_jj - 2 M_ij.  cov_prog / kern_prog / cy_prog are the programs of
    Model/PCovR.v that the correspondence check runs against pcovr_distance_ on float data
